@@ -795,8 +795,7 @@ package client
 //@   safety C02
 //@   bind pdone int := after sync.(*WaitGroup).Done 1 $trlen
 //@   bind rd string := call bufio.(*Reader).ReadString 1
-//@   assert [C01,C18,C02] client.ParseLine 1 exists a int, b int :: 0 <= a && a <= b && b <= len(rd) && arg0 === rd[a:b]
-//@        && (forall i int :: 0 <= i && i < len(rd) && (i < a || i >= b) ==> isNL(rd[i])) && (a < b ==> !isNL(rd[a]) && !isNL(rd[b-1]))
+//@   assert [C01,C18,C02] client.ParseLine 1 arg0 === rd[trimL(rd, "\r\n"):trimR(rd, "\r\n")]
 //@   requires sockOK(conn) && held(conn.mu) == 0 && conn.in != nil
 //@   modifies $tr, $wg, $wire, $log, $now, $held, heap
 //@   ensures [C06] $tr[pdone - 1] == ev("wgdone", old(conn.wg)) && $tr[pdone] == ev("lock", old(conn.mu))
